@@ -2,6 +2,7 @@ package walletsim
 
 import (
 	"fmt"
+	"os"
 	"sort"
 	"strings"
 	"time"
@@ -81,7 +82,7 @@ func genC20(r *core.Rand, p *core.Plan) {
 		n = r.Range(12, 40)
 	}
 	for i := 0; i < n; i++ {
-		switch r.Weighted([]int{30, 12, 10, 12, 8, 10, 8, 5, 8}) {
+		switch r.Weighted([]int{30, 12, 10, 12, 8, 10, 8, 5, 8, 6}) {
 		case 0: // send with a backend answer class; minconf 0 chains onto unconfirmed change
 			p.Ops = append(p.Ops, core.Op{K: "sendx", A: []int64{int64(r.Range(1, 30)) * 1e5, int64(r.Intn(2)), int64(r.Range(1, 5)) * 1000,
 				int64(r.Intn(len(answerClasses))), int64(r.Intn(3))}})
@@ -116,6 +117,9 @@ func genC20(r *core.Rand, p *core.Plan) {
 			p.Ops = append(p.Ops, core.Op{K: "fund", A: []int64{int64(r.Intn(4)), int64(r.Range(5, 80)) * 1e6}})
 		case 7:
 			p.Ops = append(p.Ops, core.Op{K: "clock", A: []int64{int64(r.Range(1, 7200))}})
+		case 9:
+			p.Ops = append(p.Ops, core.Op{K: "sync"})
+			p.Ops = append(p.Ops, core.Op{K: "sendcrash", A: []int64{int64(r.Range(1, 30)) * 1e5, int64(r.Intn(2))}})
 		case 8:
 			p.Ops = append(p.Ops, core.Op{K: "fundchild", A: []int64{int64(r.Intn(8)), int64(r.Intn(8))}})
 			if r.Chance(1, 2) {
@@ -741,4 +745,63 @@ func (rs *runState) fundchild(step int, op core.Op) {
 	x.env.Count("probe.foreign-child-of-wallet-tx")
 	x.env.Eff()
 	x.env.Logf("%d fundchild parent=%s:%d -> %s", step, short(c.op.Hash), c.op.Index, short(tx.TxHash()))
+}
+
+// sendcrash: SendOutputs, and the machine loses power at the moment the
+// wallet hands the transaction to the backend: the durable state is the
+// database as of that moment (transaction recorded, change address issued),
+// the backend never saw it. The wallet is restarted on that state; the
+// transaction is then one of the "still-unconfirmed wallet transactions" that
+// must be offered to the backend at the resynchronisation.
+func (rs *runState) sendcrash(task, step int, op core.Op) {
+	x := rs.x
+	env := x.env
+	amount := op.Arg(0)
+	if amount < 1000 {
+		amount = 1000
+	}
+	before, err := x.snap()
+	if err != nil {
+		x.fail("query-failed", "snapshot: %v", err)
+		return
+	}
+	var img []byte
+	var crashed *wire.MsgTx
+	x.client.BeforeSend = func(tx *wire.MsgTx) {
+		if img == nil {
+			if b, err := x.db.Image(); err == nil {
+				img, crashed = b, tx
+			}
+		}
+	}
+	x.client.SendAnswers = []string{"transport"}
+	x.foreignN++
+	outs := []*wire.TxOut{{Value: amount, PkScript: foreignScript(x.foreignN)}}
+	_, _ = x.w.SendOutputs(outs, nil, 0, int32(op.Arg(1)%2), 2000, wallet.CoinSelectionLargest, "")
+	x.client.BeforeSend = nil
+	x.client.SendAnswers = nil
+	env.Count("op.SendOutputs")
+	env.Eff()
+	if img == nil {
+		return // the request never got as far as the broadcast
+	}
+	x.harvestFaults()
+	x.stop()
+	if err := os.WriteFile(x.dbPath, img, 0o600); err != nil {
+		env.Infra("write crash image: %v", err)
+		return
+	}
+	env.Count("fault.crash-before-broadcast")
+	x.sent = append(x.sent, crashed)
+	x.unminedAtStart = map[chainhash.Hash]bool{crashed.TxHash(): true}
+	for h := range before.unmined {
+		x.unminedAtStart[h] = true
+	}
+	x.unminedChildAtStart = map[chainhash.Hash]bool{}
+	env.Logf("%d sendcrash: restarted on the database as of the hand-over of %s", step, short(crashed.TxHash()))
+	// the start operation's own oracle (checkResend) decides: the transaction
+	// was among the unconfirmed ones at start-up, so it must have been offered
+	// to the backend, parents first; if that offer is rejected (its inputs may
+	// be gone by now) the wallet forgets it, as for any other rejection
+	rs.exec(task, step, core.Op{K: "start"})
 }
